@@ -410,6 +410,10 @@ pub fn judge_all(ctx: &mut Ctx, focus: &str, cfg: &RunCfg, out: &RunOut) {
     ctx.count_n("byzantine-votes-sent", out.byz_votes_sent);
     ctx.count_n("byzantine-certificates-forwarded", out.byz_certs_sent);
     ctx.count_n("repair-requests", out.repair_requests);
+    if out.overflow_dropped > 0 {
+        ctx.count("executions-that-hit-the-in-flight-bound");
+        ctx.count_n("datagrams-dropped-by-the-in-flight-bound", out.overflow_dropped);
+    }
     let fin_total: usize = out.fin_logs.values().map(|l| l.len()).sum();
     ctx.count_n("finalization-events", fin_total as u64);
     let (sf, sinfo) = safety_oracle(cfg, out);
